@@ -833,3 +833,11 @@ M('sweep12-doubly-ephemeral-gets-a-request-socket', ['C05'], Z, "push = context.
 M('sweep12-doubly-ephemeral-is-sent-requests', ['C05'], Z, "            if self.ephemeral < 2:  # do not anything to doubly-ephemeral channels", "            if self.ephemeral <= 2:  # do not anything to doubly-ephemeral channels", ['C05.R15'])
 M('sweep12-date-offset-reread-in-the-wrong-cases', ['C08'], UTL, "    return dt if utc or dt.tzinfo is not tz else dt.replace(tzinfo=None).astimezone()  #", "    return dt if utc and dt.tzinfo is not tz else dt.replace(tzinfo=None).astimezone()  #", ['C08.R8'])
 M('sweep12-date-offset-reread-for-foreign-zones', ['C08'], UTL, "    return dt if utc or dt.tzinfo is not tz else dt.replace(tzinfo=None).astimezone()  #", "    return dt if utc or dt.tzinfo is tz else dt.replace(tzinfo=None).astimezone()  #", ['C08.R8'])
+M('seed13-C06-close-resets-expected-id-only-with-a-half-set', ['C06'], Z, "                            sender.min_recv_id = MSG_ID_INITIAL  # for ephemeral only, so that if sender restarts we don't get barrage of older message warnings\n\n                            if sender.got == 'some':  #", "                            if sender.got == 'some':  #", ['C06.R20'])
+M('seed13-C08-oob-handler-errors-swallowed', ['C08'], Z, "                        if msg_id == MSG_ID_OOB:  # out-of-band message\n                            self.message_oob(msg)\n", "                        if msg_id == MSG_ID_OOB:  # out-of-band message\n                            try:\n                                self.message_oob(msg)\n                            except Exception as exc:\n                                logger.warning(f'out-of-band message not handled: {exc!r}')\n", ['C08.R13'])
+M('seed13-C13-end-search-looks-at-one-block-only', ['C13'], RL, "                while at and self.mode != 'bin':\n                    read_file.seek(start := max(0, at - 65536))\n\n                    if (cut := read_file.read(at - start).rfind(b'\\n') + 1):\n                        at = start + cut\n\n                        break\n\n                    at = start\n", "                if at and self.mode != 'bin':\n                    read_file.seek(start := max(0, at - 65536))\n\n                    at = start + read_file.read(at - start).rfind(b'\\n') + 1\n", ['C13.R16'])
+M('seed13-C17-six-digit-colour-read-as-short-form', ['C17'], UT, "                                (int(c[0] * 2, 16), int(c[1] * 2, 16), int(c[2] * 2, 16))\n                                if len(c) == 3 else\n                                (int(c[:2], 16), int(c[2 : 4], 16), int(c[4:], 16))", "                                ((v >> 8) * 17, (v >> 4 & 15) * 17, (v & 15) * 17)\n                                if (v := int(c, 16)) < 0x1000 else\n                                (v >> 16, v >> 8 & 255, v & 255)", ['C17.R13'])
+M('sweep13-short-colour-digits-not-doubled', ['C17'], UT, "(int(c[0] * 2, 16), int(c[1] * 2, 16), int(c[2] * 2, 16))", "(int(c[0], 16), int(c[1] * 2, 16), int(c[2] * 2, 16))", ['C17.R13'])
+M('seed13-C15-timeout-line-keeps-the-raw-bind-address', ['C15'], Z, """@ {hide_uri_users_and_pwds(self.pull2addr.get(pull, "???"))}  (timeout)')""", """@ {self.pull2addr.get(pull, "???")}  (timeout)')""", ['C15.R1'])
+M('seed13-C16-shape-allow-list-cached-per-process', ['C16'], CF, "def read_allowlist() -> Set[str]:", "@__import__('functools').cache\ndef read_allowlist() -> Set[str]:", ['C16.R14'])
+M('seed13-C03-shape-missing-target-keeps-the-source-name', ['C03'], F, "topics = [tuple([t.strip() or default_topic for t in s.strip().split('>')] * 2)[:2] for s in topics]", "topics = [((p := [t.strip() for t in s.split('>')])[0] or default_topic, (p[1] if len(p) > 1 and p[1] else p[0] or default_topic)) for s in topics]", ['C03.R20'])
